@@ -346,6 +346,8 @@ def checkTbl (case impl : List String) : List Fail := Id.run do
     let some ctor := parseNums ctorS "," | return bad "ctor"
     let some cfg := cfgOfTable tname ctor | return bad "table"
     let some shape := Spec.shapeOf tname | return bad "shape"
+    let twinDiff := impl.any (fun t => t = "twin=DIFF")
+    let impl := impl.filter (fun t => ¬ t.startsWith "twin=")
     let obsToks := impl.filter (fun t => ¬ t.startsWith "img=")
     let imgTok := (impl.find? (fun t => t.startsWith "img=")).map (fun t => (t.drop 4).toString)
     let some obs := obsToks.mapM parseObs | return bad "observation"
@@ -364,6 +366,8 @@ def checkTbl (case impl : List String) : List Fail := Id.run do
         | none => cfg)
       | _ => cfg
     let mut fails : List Fail := []
+    if twinDiff then
+      fails := fails ++ [⟨"prop", "C14", "twin-tables-differ", s!"{tname}: a second table instance fed the same program, call by call interleaved with the first, returned different handles or a different image"⟩]
     -- (the offset limit of VIOT is decided by `tOff` below, never by the Length-fed copy)
     let mut t := Tbl.new { cfg with maxOffset := none } ⟨oid, otab, orev⟩
     -- a second copy of the engine in which every entry claims exactly its serialised size: the
